@@ -50,7 +50,8 @@ REQUIRED_COUNTERS = ['rows_compared', 'bsf_roundtrips', 'css_objects',
                      'user_defined_codes', 'hash_seed_children',
                      'y_operators_roundtripped',
                      'from_bsf_other_sparse_containers',
-                     'user_defined_codes_with_checks_of_weight_256_or_more']
+                     'user_defined_codes_with_checks_of_weight_256_or_more',
+                     'originals_judged_after_being_copied']
 
 LETTER_BITS = {'X': (1, 0), 'Y': (1, 1), 'Z': (0, 1)}
 
@@ -541,6 +542,23 @@ def run_lib(task, out):
                 ne = check_object(code, desc, out, mech, rng, deep=deep)
                 out.count('library_objects')
                 out.case(desc, nontrivial=bool(ne))
+                # the object is copied / serialised (handed to a batch, a
+                # worker, a cache) -- the ORIGINAL must read as before
+                import copy
+                import pickle
+                how = ['deepcopy', 'copy', 'pickle'][(step + len(cls)) % 3]
+                try:
+                    if how == 'deepcopy':
+                        copy.deepcopy(code)
+                    elif how == 'copy':
+                        copy.copy(code)
+                    else:
+                        pickle.dumps(code)
+                except Exception:
+                    pass        # not picklable: nothing was handed on
+                check_object(code, dict(desc, after=how), out,
+                             mech + f'/original-after-{how}', rng, deep=False)
+                out.count('originals_judged_after_being_copied')
             # same-object history
             if chain is None:
                 chain = fam.build(cls, size)
